@@ -11,7 +11,7 @@ Separate Extraction
   Store.push_fixed Store.cancel_timer
   StoreSpec.aempty StoreSpec.legal StoreSpec.astep StoreSpec.aobserve StoreSpec.arun
   McInst.i_cb_run McInst.i_run McInst.i_run_from_states McInst.i_state_eqb McInst.i_take_choice McInst.i_all_choices
-  McInst.i_get_state McInst.i_set_state McInst.r_cb_run McInst.r_run McInst.r_take_choice McInst.r_all_choices McInst.r_get_state
+  McInst.i_get_state McInst.i_set_state McInst.r_cb_run McInst.r_run McInst.r_run_from_states McInst.r_take_choice McInst.r_all_choices McInst.r_get_state
   McInst.c_ops McInst.a_ops
   PredInst.pred_battery
   SimInst.y_snapshot SimInst.y_snapshot_ref
